@@ -125,6 +125,21 @@ def do_run(argv: List[str]) -> int:
                 if status == "CAUGHT":
                     break
             caught = any(r["status"] == "CAUGHT" for r in results.values())
+            # the stored (minimised) replay file must reproduce on the changed tree, in a
+            # fresh interpreter, and must show nothing on the unchanged tree
+            for tier in list(results):
+                rp = os.path.join(sdir, f"replay-{tier}.json")
+                if results[tier]["status"] == "CAUGHT" and os.path.exists(rp):
+                    outs = {}
+                    for label, tree in (("changed", root), ("unchanged", REPO)):
+                        env = {**os.environ, "VERIF_REPO": tree}
+                        env.pop("VERIF_REEXEC", None)
+                        c = _sh([sys.executable, "-B", os.path.join(VERIF, "check"), "--replay", rp], env=env, timeout=1200)
+                        outs[label] = c.returncode
+                    results[tier]["replay_exit_on_changed_tree"] = outs["changed"]
+                    results[tier]["replay_exit_on_unchanged_tree"] = outs["unchanged"]
+                    if outs != {"changed": 1, "unchanged": 0}:
+                        print(f"{sid}: REPLAY PROBLEM {outs}", flush=True)
             if not caught:
                 missed.append(sid)
             meta["confirmed"] = {"suite": tail, "suite_passes": suite_ok, "demo_exit_without_change": demo_clean, "demo_exit_with_change": demo_patched, "ok": confirmed}
